@@ -77,8 +77,11 @@ def _init_worker():
 
 def _call(args):
     fn, vec = args
+    import contextlib
+    import io
     try:
-        return fn(vec)
+        with contextlib.redirect_stdout(io.StringIO()):   # the library print()s remarks
+            return fn(vec)
     except Exception:
         return ["MACHINERY: " + traceback.format_exc()[-1500:]]
 
